@@ -17,7 +17,27 @@ PROFILE = {"calendar_crop_p": 0.5, "custom_soil_p": 0.4, "restrictive_p": 0.6, "
 
 
 def gen_case(rng, tier, idx):
-    return std_case(rng, PROFILE)
+    case = std_case(rng, PROFILE)
+    if idx % 4 == 1:
+        # profiles with three or four horizons, a plough layer no thicker than the minimum rooting depth, mixed
+        # penetrabilities, deep-rooting crops kept growing by irrigation: roots cross every horizon boundary
+        spec = case["spec"]
+        dz = list(rng.choice([[0.1] * 12, [0.05] * 4 + [0.1] * 10, [0.1] * 20]))
+        nh = rng.choice([3, 3, 4])
+        thick = [rng.choice([0.1, 0.2, 0.3])] + [rng.choice([0.2, 0.3, 0.5]) for _ in range(nh - 2)] + [3.0]
+        layers = []
+        for i, th in enumerate(thick):
+            wp = round(rng.uniform(0.06, 0.25), 3)
+            fc = round(wp + rng.uniform(0.08, 0.2), 3)
+            sat = round(fc + rng.uniform(0.03, 0.15), 3)
+            pen = 100 if (i == 0 or rng.random() < 0.5) else rng.choice([20, 50, 80])
+            layers.append(["hyd", th, wp, fc, sat, rng.choice([35, 100, 500, 1200]), pen])
+        spec["soil"] = {"type": "custom", "kwargs": {"dz": dz, "cn": 61, "rew": 9}, "layers": layers}
+        spec["iwc"] = {"wc_type": "Pct", "method": "Layer", "depth_layer": list(range(1, nh + 1)), "value": [rng.choice([60, 80, 100]) for _ in range(nh)]}
+        spec["irr"] = {"method": rng.choice([1, 1, 2]), "kwargs": {"SMT": [70] * 4, "IrrInterval": 5, "MaxIrr": 40}, "schedule": None}
+        spec["gw"] = None
+        case["controller"] = None
+    return case
 
 
 def _nontrivial(res):
